@@ -77,3 +77,20 @@ def register(w):
         c.loop(3, inv=["self.status == 'stopped'", f"len(self._actors) == 0 and len({AE}) == 0 and len(self._after_threads) == 0 and len(self._scheduled_sends) == 0",
                        f"forall[Flag](lambda f: not (f in {PSC}))", f"forall[str](lambda k: implies(k in old({AE}), old({AE})[k].is_set))",
                        f"forall[Flag](lambda f: implies(f in old({PSC}), f.is_set))"])
+
+    AI = "xstate_statemachine.interpreter:Interpreter."
+
+    @w.contract(AI + "stop", props=["C14", "C05"])
+    def _(c):
+        # the asyncio engine's stop(): same lifecycle clauses as the sync one; its timers / services live in the TaskManager
+        # (cancel_all, outside the modelled state), the queue consumer task is cancelled and awaited
+        c.no_runtime = True
+        c.mod("self.status", "self._actors", "self._event_loop_task")
+        c.req("valid_status(self.status)")
+        ACTIVE = "(old(self.status) != 'uninitialized' and old(self.status) != 'stopped')"
+        c.ens("status_step(old(self.status), self.status)", label="status-edge-allowed")
+        c.ens(f"implies(not {ACTIVE}, self.status == old(self.status) and len(self._actors) == len(old(self._actors)))", label="stop-is-idempotent")
+        c.ens(f"implies({ACTIVE}, self.status == 'stopped')", label="stopped-afterwards")
+        c.ens(f"implies({ACTIVE}, len(self._actors) == 0 and self._event_loop_task == None)", label="no-actor-or-consumer-task-left")
+        c.loop(0, inv=["self.status == 'stopped'"])
+        c.loop(1, inv=["self.status == 'stopped'", "same(self._actors, old(self._actors))"])
